@@ -187,7 +187,7 @@ CLAIMED = {
                 "point; and the slot served by the recovery function is valid with a fully verifying tree. On the implementation every header "
                 "byte and sampled bytes, bits, byte runs and page swaps of closed images are altered; the real open + check_integrity verdict "
                 "is accepted only if Ok(_) comes with the contents of a recorded commit point and a second check after a repair is clean.",
-        "note": NOTE + "; hash idealisation as explicit hypothesis; panics on altered files (observation O1) are counted as 'not certified'; the classification of each byte as covered or slack is not itself proved (covered_or_harmless of DESIGN remains open)",
+        "note": NOTE + "; one known finding (snapshots of persistent savepoints are not verified: known_findings.json / DESIGN 0.3 F9); hash idealisation as explicit hypothesis; panics on altered files (observation O1) are counted as 'not certified'; the classification of each byte as covered or slack is not itself proved (covered_or_harmless of DESIGN remains open)",
         "technique": "Lean 4 proof (Merkle binding under hash injectivity) + corruption sweep against recorded commit points",
         "design_ref": "DESIGN.md §6 C12",
     },
